@@ -61,22 +61,35 @@ theorem C04_remap_monotone {α} (segs : List (Segment α)) (s d n s' d' n' : Nat
     simp at this hlt
     omega
 
-/-
-FULL STATEMENT (validated on every merge of the correspondence run by the driver's
-`model` vs `spec` comparison and on the examples below by `decide`; proved here per source):
+/-- TRANSLATION THEOREM. The merged segment written by the mechanism of `merger.rs`
+(new→old table, per-source old→new tables, k-way term merge with remapped postings and
+recomputed doc_freq, table-driven copy of per-document data) has exactly the logical content of
+the concatenation of its sources: the live documents in source order with their stored fields /
+norms / fast values, and for every term the (doc, tf, positions) of the live documents, densely
+renumbered; terms without a live document are gone. Hypotheses: the sources are well formed
+(per-doc data and alive bitset have the same length; posting doc ids are strictly increasing
+and below max_doc). -/
+theorem C04_merge_translation {α} (segs : List (Segment α))
+    (hlen : ∀ s ∈ segs, s.docs.length = s.alive.length)
+    (hpost : ∀ s ∈ segs, ∀ t ∈ s.terms, postingsOk s.alive.length t.2 = true) :
+    dump (mergeModel segs) = mergeSpec segs := by
+  have hd := mergeModel_docs segs hlen
+  have ht := mergeModel_terms segs hpost
+  cases h1 : dump (mergeModel segs) with
+  | mk d1 t1 =>
+    cases h2 : mergeSpec segs with
+    | mk d2 t2 =>
+      rw [h1, h2] at hd ht
+      simp only at hd ht
+      rw [hd, ht]
 
-  theorem C04_merge_translation (segs : List (Segment α))
-      (hlen : ∀ s ∈ segs, s.docs.length = s.alive.length)
-      (hpost : ∀ s ∈ segs, ∀ t ∈ s.terms, postingsOk s.alive.length t.2 = true) :
-      dump (mergeModel segs) = mergeSpec segs
--/
 /-- Translation of postings, per source (the step `write_postings_for_field` performs for each
 `(term, source)` pair): the posting list of source `s` remapped through the filled old→new table
 is exactly the list of its LIVE postings — tf and positions copied unchanged, doc ids
 renumbered by rank among the live docs — shifted by the number of live docs of the earlier
 sources. Hence deleted docs vanish, `doc_freq_given_deletes` is the length of the remapped
 list, and a source whose live doc_freq is 0 contributes nothing. -/
-theorem C04_merge_translation_partial {α} (segs : List (Segment α)) (s : Nat) (seg : Segment α)
+theorem C04_merge_translation_per_source {α} (segs : List (Segment α)) (s : Nat) (seg : Segment α)
     (hs : segs[s]? = some seg) (ps : List Posting) :
     remapPostings (oldToNew segs) s ps = shift (liveBase segs s) (livePostings seg.alive ps) ∧
     (remapPostings (oldToNew segs) s ps).length = docFreqGivenDeletes seg.alive ps ∧
@@ -97,6 +110,24 @@ theorem C04_merge_translation_partial {α} (segs : List (Segment α)) (s : Nat) 
     simp only [shift, List.length_map]
     exact hlive ps
   exact ⟨h, hl, fun h0 => List.eq_nil_of_length_eq_zero (hl.trans h0)⟩
+
+/-- Translation of postings, per term, across all sources: for EVERY key the posting list the
+merger writes (sources whose live doc_freq is 0 skipped, the others remapped through their
+old→new tables, in source order) is exactly the posting list of that key in the concatenation of
+the sources restricted to live docs and renumbered densely — i.e. what `dump (concat segs)`
+holds for the key — and the `total_doc_freq` handed to `new_term` is its length (the number of
+live documents containing the term; 0 iff the term disappears). -/
+theorem C04_merge_translation_postings {α} (segs : List (Segment α))
+    (hpost : ∀ s ∈ segs, ∀ t ∈ s.terms, postingsOk s.alive.length t.2 = true) (k : Key) :
+    (mergedTermFrom (oldToNew segs) k 0 segs).2
+      = livePostings (concat segs).alive (concatPostings k segs 0) ∧
+    (mergedTermFrom (oldToNew segs) k 0 segs).1
+      = (livePostings (concat segs).alive (concatPostings k segs 0)).length := by
+  have h := mergedTermFrom_eq k [] segs hpost
+  simp only [List.nil_append, List.length_nil, List.map_nil, List.flatten_nil] at h
+  refine ⟨h.1, ?_⟩
+  rw [h.2, h.1]
+  rfl
 
 /-- Translation of per-document data (stored fields, field norms, fast-field values): what
 `write_fieldnorms` / the shuffled columnar merge / the per-doc store copy produce through the
@@ -129,6 +160,10 @@ example : getAddr (oldToNew exSegs) 0 2 = some 1 ∧ getAddr (oldToNew exSegs) 0
     ∧ getAddr (oldToNew exSegs) 2 1 = some 3 := by decide
 example : (dump (mergeModel exSegs)).docs = [7, 9, 4, 5] := by decide
 example : ∀ s ∈ exSegs, s.docs.length = s.alive.length := by decide
+example : ∀ s ∈ exSegs, ∀ t ∈ s.terms, postingsOk s.alive.length t.2 = true := by decide
+example : mergedTermFrom (oldToNew exSegs) [98] 0 exSegs = (1, [⟨1, 1, [5]⟩]) := by decide
+example : dump (mergeModel exSegs) = mergeSpec exSegs :=
+  C04_merge_translation exSegs (by decide) (by decide)
 example : mergedStore (fun i => i == 2) 0 exSegs = [7, 9, 4, 5] := by decide
 example : (dump (mergeModel exSegs)).terms = (mergeSpec exSegs).terms := by decide
 example : (mergedTerms exSegs).map (fun t => (t.1, t.2.1)) = [([97], 2), ([98], 1), ([99], 1)] := by
